@@ -15,6 +15,105 @@ CLS = "FlowIRExperimentConfiguration"
 ALLOWED = {"ExperimentInvalidConfigurationError", "ExperimentMissingConfigurationError"}
 
 
+def check_conversion_tolerance(ctx, fl) -> None:
+    """The conversion detector: in the handler of the failed `expected_type(value)` every exit that swallows the failure (a `return`
+    inside the handler) is gated by the API flag that switches conversion errors off, or by a test that implies that the value
+    holds at least one unresolved %(variable)s (the documented tolerance: `replica` is unknown in a primitive graph).  A test that
+    is also true for a value without any variable - all(...) over the (empty) list, `not L`, a subset test - tolerates every
+    mistyped constant."""
+    RID = "C11.R11-conversion-tolerance-needs-a-variable"
+    cct = fl.func("FlowIR.convert_component_types")
+    ctx.analysed(cct)
+    params = {a.arg for a in cct.args.args + cct.args.kwonlyargs}
+    ctx.require("ignore_convert_errors" in params, "anchor missing: parameter ignore_convert_errors of FlowIR.convert_component_types")
+    n = 0
+    for f in ast.walk(cct):
+        if not isinstance(f, ast.FunctionDef) or f is cct:
+            continue
+        handlers = [h for t in source.walk_own(f) if isinstance(t, ast.Try) for h in t.handlers
+                    if any(isinstance(x, ast.Call) and (dotted(x.func) or "").split(".")[-1] == "FlowIRInvalidFieldType" for x in ast.walk(h))]
+        if not handlers:
+            continue
+        cfg = CFG(f)
+        lists = set(match.locals_where(f, lambda v: any(isinstance(c, ast.Call) and last_attr(c) in ("finditer", "findall") for c in ast.walk(v))))
+
+        def nonempty_side(t: ast.AST) -> Optional[str]:
+            neg = False
+            while isinstance(t, ast.UnaryOp) and isinstance(t.op, ast.Not):
+                t, neg = t.operand, not neg
+            lab = None
+            if isinstance(t, ast.Name) and t.id in lists:
+                lab = "T"
+            cp = match.compare_parts(t)
+            if cp:
+                l, op, r = cp
+                is_l = lambda e: (isinstance(e, ast.Name) and e.id in lists) or (
+                    isinstance(e, ast.Call) and call_name(e) in ("set", "list", "tuple", "sorted") and e.args and isinstance(e.args[0], ast.Name) and e.args[0].id in lists)
+                lit = lambda e: isinstance(e, (ast.List, ast.Tuple, ast.Set)) and len(e.elts) >= 1
+                if (is_l(l) and lit(r)) or (is_l(r) and lit(l)):
+                    lab = "T" if isinstance(op, ast.Eq) else "F" if isinstance(op, ast.NotEq) else None
+                elif isinstance(op, ast.In) and isinstance(l, ast.Constant) and is_l(r):
+                    lab = "T"
+                elif isinstance(op, ast.NotIn) and isinstance(l, ast.Constant) and is_l(r):
+                    lab = "F"
+                elif isinstance(l, ast.Call) and call_name(l) == "len" and l.args and is_l(l.args[0]) and isinstance(r, ast.Constant) and isinstance(r.value, int):
+                    k = r.value
+                    if (isinstance(op, ast.Gt) and k >= 0) or (isinstance(op, ast.GtE) and k >= 1) or (isinstance(op, ast.Eq) and k >= 1):
+                        lab = "T"
+                    elif (isinstance(op, ast.NotEq) and k == 0):
+                        lab = "T"
+                    elif (isinstance(op, ast.Eq) and k == 0) or (isinstance(op, ast.Lt) and k <= 1) or (isinstance(op, ast.LtE) and k <= 0):
+                        lab = "F"
+            if lab is None:
+                return None
+            return match.other(lab) if neg else lab
+        gates = match.test_nodes(cfg, nonempty_side)
+        gates += match.test_nodes(cfg, lambda t: match.polarity(t, lambda e: isinstance(e, ast.Name) and e.id == "ignore_convert_errors"))
+        for h in handlers:
+            for r in [x for st in h.body for x in ast.walk(st) if isinstance(x, ast.Return)]:
+                nodes = [nd for nd in cfg.nodes if nd.ast is r]
+                if not nodes:
+                    continue
+                n += 1
+                ok = bool(gates) and match.only_via_edges(cfg, nodes[0], gates)
+                ctx.ob(RID, r, ok,
+                       "the failure is swallowed only under ignore_convert_errors or for a value that holds an unresolved variable" if ok else
+                       "convert() returns the unconverted value on a path that is also taken by a value WITHOUT any %(variable)s (a test that is "
+                       "vacuously true for the empty list of unresolved variables): a mistyped constant such as resourceRequest.memory: '4 gigs' "
+                       "passes validation and fails later, outside the loader", construct="convert(): tolerated conversion failure <- a variable in the value")
+    ctx.floor(RID, n, 2, "exits of convert()'s failure handler that swallow the conversion error")
+
+
+def check_raw_components_validated(ctx, fl) -> None:
+    """FlowIR.validate (the document validator) checks every raw component - all its override sections, whatever the active
+    platform - against the closed component schema.  The obligation: that loop is not reachable ONLY when an earlier schema check
+    reported errors (a truthiness test of a list of errors is the inverted guard)."""
+    RID = "C11.R12-raw-components-are-validated"
+    fv = fl.func("FlowIR.validate")
+    ctx.analysed(fv)
+    cfg = CFG(fv)
+    errs = set(match.locals_where(fv, lambda v: isinstance(v, ast.Call) and call_name(v) == "validate_object_schema"))
+    # validate_object_schema(<element>, ..) where <element> is bound by an enclosing for loop: one validation per raw component
+    def per_element(nd) -> bool:
+        for c in own_calls(nd.ast):
+            if isinstance(c, ast.Call) and call_name(c) == "validate_object_schema" and c.args and isinstance(c.args[0], ast.Name):
+                for a in source.ancestors(nd.ast):
+                    if isinstance(a, ast.For) and any(isinstance(x, ast.Name) and x.id == c.args[0].id for x in ast.walk(a.target)):
+                        return True
+        return False
+    per_comp = [nd for nd in cfg.nodes if nd.ast is not None and nd.kind in ("stmt", "test") and per_element(nd)]
+    ctx.floor(RID, len(per_comp), 1, "per-component schema validations of the raw document in FlowIR.validate")
+    gates = match.test_nodes(cfg, lambda t: match.polarity(t, lambda e: isinstance(e, ast.Name) and e.id in errs))
+    for nd in per_comp:
+        inverted = bool(gates) and match.only_via_edges(cfg, nd, gates, ignore_labels=("exc",))
+        ctx.ob(RID, nd.ast, not inverted,
+               "every raw component is checked against the closed schema when the components are a list of dictionaries" if not inverted else
+               "the per-component validation of the raw document runs only when an earlier schema check REPORTED errors (the guard is the "
+               "truthiness of the list of errors, i.e. inverted): for a well-formed list of components it is dead code, so a misspelt option "
+               "under override.<a platform that is not the active one> is never seen by a validator (instance() prunes it) and the workflow loads",
+               construct="FlowIR.validate: per-component schema validation <- components is a list of dictionaries")
+
+
 def check_cycle_detector(ctx, fl) -> None:
     """R5: the topological sort in propagate_replicate is (in practice) the only place where a dependency cycle becomes an
     invalid-configuration error, so the graph it sorts must contain every component->component reference."""
@@ -111,6 +210,12 @@ def run(ctx) -> None:
              "keyed by the identifier (which would merge duplicates before anyone can reject them)")
     ctx.rule("C11.R9-errors-are-raised", "in the loader modules an exception object is never built and dropped: a call to an error class as an "
              "expression statement is a rejection that does not happen")
+    ctx.rule("C11.R11-conversion-tolerance-needs-a-variable", "in the handler of a failed type conversion the error is swallowed only under the "
+             "ignore_convert_errors flag or under a test that implies that the value contains an unresolved variable (non-empty list of "
+             "matches): otherwise FlowIRInvalidFieldType is recorded")
+    ctx.rule("C11.R12-raw-components-are-validated", "FlowIR.validate checks every raw component (all override sections, not only the active platform's) "
+             "against the closed component schema whenever the components are a list of dictionaries: the loop is not guarded by the "
+             "truthiness of an error list")
     ctx.rule("C11.R10-validators-see-process-constant-tables", "the class-level collections of FlowIR that decide whether 'name:ref' is a component or "
              "a folder (SpecialFolders, ...) are never mutated in place: otherwise what one load reserved makes a later load accept a "
              "reference to a component that does not exist")
@@ -307,6 +412,8 @@ def run(ctx) -> None:
 
     # ---------------- R5 -------------------------------------------------------------------------------
     check_cycle_detector(ctx, fl)
+    check_conversion_tolerance(ctx, fl)
+    check_raw_components_validated(ctx, fl)
 
     # ---------------- R9 -------------------------------------------------------------------------------
     n_stmts = 0
